@@ -8,10 +8,10 @@ From Trion Require Import Text.Types Arm.Instr Arm.EncodeModel Arm.Armv6mSpec Ar
   Arm.AsmStmtModel Arm.AsmStmtProofs Arm.AsmOperands Arm.AsmRejects Arm.AsmSpelling.
 Import ListNotations.
 
-Theorem no_wrap ev local addr name args i st' :
+Theorem no_wrap : forall ev local addr name args i st',
   assemble_stmt ev local addr name args = COk i st' ->
   template name = Some (kind_template i) /\ wf_instr i /\ stmt_reads ev i addr args /\ enc i = of_spec (armv6m_enc i).
 Proof.
-  intros H. destruct (stmt_assembles_reads ev local addr name args i st' H) as [T [W R]].
+  intros ev local addr name args i st' H. destruct (stmt_assembles_reads ev local addr name args i st' H) as [T [W R]].
   repeat split; try assumption. exact (enc_is_table i W).
 Qed.
